@@ -114,7 +114,9 @@ struct Gen {
     long rtopic(bool for_sub) {
         if (pf.bad_topics && r.chance(0.12)) return 200 + (long)r.below(3);
         if (pf.sys_topics && for_sub && r.chance(camp == "C19" ? 0.8 : 0.3)) return 100 + (long)r.below(6);
-        return (long)r.below(for_sub ? TOPIC_POOL_N : 5);
+        if (for_sub) return (long)r.below(TOPIC_POOL_N);
+        long k = (long)r.below(7);   // published: the five plain topics and the two literal topics that are not self-matching expressions
+        return k < 5 ? k : 10 + (k - 5);
     }
 
     void gen_op(const std::string &where, Cat c, bool in_cb) {
@@ -323,6 +325,7 @@ Program gen_core(const std::string &campaign, uint64_t seed, bool thorough) {
     // program's own double close): every module registers private descriptors only
     p.set("fdpermod", 1);
     if (campaign == "C20") p.set("filefds", r.chance(0.5) ? 1 : 0);
+    if (campaign == "C09") p.set("filefds", r.chance(0.3) ? 1 : 0);   // (own draw: the C20 programs of a seed stay what they were)
     if (campaign == "C09" || campaign == "C20") p.set("reap", r.chance(0.5) ? 1 : 0);
     if (campaign == "C09" || campaign == "C20" || campaign == "C03") p.set("fdzero", r.chance(0.15) ? 1 : 0);   // descriptor number 0 as a key   // processes may be gone for good: their pid sources cannot be polled (refused registration / failing start)   // every third user descriptor is one epoll refuses
     g.tasks_in_program = (campaign == "C04" ? r.chance(0.6) : r.chance(0.3)) && (g.pf.src_kinds & 32);   // (only where task sources can be generated at all)
